@@ -163,6 +163,18 @@ pub fn run(ctx: &Ctx) -> Report {
     for c in &cases {
         let mut eg = EGraph::default();
         let prog = header(c) + &c.cmds.join("\n");
+        // pre-flight in a child process: a cyclic choice of parent edges makes reconstruction recurse forever
+        // (stack overflow aborts the process, which cannot be caught in-process)
+        {
+            let mut chunks = vec![prog.clone()];
+            for i in 0..c.nroots { chunks.push(format!("(extract $r{i})")); chunks.push(format!("(extract $r{i} 4)")); }
+            unsafe { std::env::set_var("VERIF_CHILD_TIMEOUT_S", "60"); }
+            let r = crate::props::child::spawn(&json!({"threads": 1, "chunks": chunks}), &[], 0);
+            if let Err(e) = r {
+                rep.violate("property", "c07-extract-aborts", format!("extraction kills the process (stack overflow from a cyclic choice of e-nodes, or a hang): {e}"), json!({"program": chunks.join("\n")}));
+                metas.push(None); continue;
+            }
+        }
         let o = engine::run(&mut eg, &prog);
         if !o.is_ok() { metas.push(None); continue; }
         let d = engine::raw_dump(&eg);
